@@ -60,6 +60,25 @@ Theorem C13_all_combinations_nodup : forall (A : Type) (nameof : A -> Z) keep b1
 Proof. exact @all_combinations_nodup. Qed.
 Print Assumptions C13_all_combinations_nodup.
 
+(** The children of a complete-KK search node (the combinations de-duplicated once more by their sums): each is a combination ... *)
+Theorem C13_ckk_children_sound : forall (A : Type) (nameof : A -> Z) keep b1 b2 c,
+  In c (ckk_children nameof keep b1 b2) -> In c (all_combinations nameof keep b1 b2).
+Proof. exact @ckk_children_sound. Qed.
+Print Assumptions C13_ckk_children_sound.
+
+(** ... every combination is represented by a child with the same sums ... *)
+Theorem C13_ckk_children_complete : forall (A : Type) (nameof : A -> Z) keep b1 b2 c,
+  In c (all_combinations nameof keep b1 b2) ->
+  exists c', In c' (ckk_children nameof keep b1 b2) /\ sums c' = sums c.
+Proof. exact @ckk_children_complete. Qed.
+Print Assumptions C13_ckk_children_complete.
+
+(** ... and no two children have the same sums *)
+Theorem C13_ckk_children_nodup : forall (A : Type) (nameof : A -> Z) keep b1 b2,
+  NoDup (map sums (ckk_children nameof keep b1 b2)).
+Proof. exact @ckk_children_nodup. Qed.
+Print Assumptions C13_ckk_children_nodup.
+
 (** the permutations enumerated are exactly the permutations of the bin indices *)
 Theorem C13_perms : forall n p, In p (perms n) <-> Permutation p (range n).
 Proof. exact perms_spec. Qed.
